@@ -747,7 +747,8 @@ ghost c13_lastSynced Bool
 // One locked sync pass: after a successful copy that reached the end of the WAL (or was not cut short by
 // MaxSyncWALBytes) the checkpoint thresholds are evaluated, on the logical sizes the copy reported.
 func litestream.(*DB).syncLocked(db, ctx, maxSyncWALBytes) (result, err)
-  requires db != nil && pos_verifyErr == nil
+  requires db != nil
+  at litestream.(*DB).newSyncExecutor#1 reset pos_verifyErr = nil
   modifies $heap, $alloc, file_written, path_synced, path_handle, file_closed, pub_dst, pub_renamed, enc_pages, enc_last, pm_commitOff, pm_lastCommit, sync_off, sync_sz, sync_hdr, v_off, v_s1, v_s2, v_wsize, v_lpm, v_lpmCalled, v_detected, v_detCalled, v_belief, tx_lockrow, ckx_barrier, ckx_sealed, ckx_copied, ckx_after, ck_n, ck_mode, ck_restarted, pos_verifyErr, c13_evals, c13_exec
   at litestream.(*DB).newSyncExecutor#1 set c13_exec = ($result0 != nil && $result1 == nil)
   at litestream.(*DB).checkpointIfNeeded#1 assert [C13.sizes] $arg1 == exec && $arg2 == result.origWALSize && $arg3 == result.newWALSize
@@ -757,7 +758,7 @@ func litestream.(*DB).syncLocked(db, ctx, maxSyncWALBytes) (result, err)
 
 // syncOnce: syncLocked under the executor semaphore.
 func litestream.(*DB).syncOnce(db, ctx, maxSyncWALBytes) (result, err)
-  requires db != nil && pos_verifyErr == nil
+  requires db != nil
   modifies $heap, $alloc, file_written, path_synced, path_handle, file_closed, pub_dst, pub_renamed, enc_pages, enc_last, pm_commitOff, pm_lastCommit, sync_off, sync_sz, sync_hdr, v_off, v_s1, v_s2, v_wsize, v_lpm, v_lpmCalled, v_detected, v_detCalled, v_belief, tx_lockrow, ckx_barrier, ckx_sealed, ckx_copied, ckx_after, ck_n, ck_mode, ck_restarted, pos_verifyErr, c13_evals, c13_exec
   at litestream.(*DB).syncLocked#1 assert [C13.chunk] $arg1 == maxSyncWALBytes
   ensures [C13.gate] err == nil && c13_exec && (!result.limited || result.syncedToWALEnd) ==> c13_evals == old(c13_evals) + 1
@@ -766,9 +767,8 @@ func litestream.(*DB).syncOnce(db, ctx, maxSyncWALBytes) (result, err)
 // Sync repeats bounded chunks until caught up; a successful Sync whose last chunk produced a file has
 // evaluated the checkpoint thresholds after that chunk.
 func litestream.(*DB).Sync(db, ctx) (err)
-  requires db != nil && pos_verifyErr == nil
+  requires db != nil
   modifies $heap, $alloc, file_written, path_synced, path_handle, file_closed, pub_dst, pub_renamed, enc_pages, enc_last, pm_commitOff, pm_lastCommit, sync_off, sync_sz, sync_hdr, v_off, v_s1, v_s2, v_wsize, v_lpm, v_lpmCalled, v_detected, v_detCalled, v_belief, tx_lockrow, ckx_barrier, ckx_sealed, ckx_copied, ckx_after, ck_n, ck_mode, ck_restarted, pos_verifyErr, c13_evals, c13_exec, c13_lastSynced
-  at litestream.(*DB).syncOnce#1 reset pos_verifyErr = nil
   at litestream.(*DB).syncOnce#1 assert [C13.chunk] $arg1 == db.MaxSyncWALBytes
   at litestream.(*DB).syncOnce#1 set c13_lastSynced = $result0.synced
   loop 0 invariant db == old(db) && c13_evals >= old(c13_evals)
